@@ -6,7 +6,7 @@ import (
 	"verifh/hx"
 )
 
-var meths = []string{"MEcho", "MFail", "MBoom", "MNever", "MNote", "MNoMethod", "MNoGroup", "MBadPayload", "MUnenc"}
+var meths = []string{"MEcho", "MFail", "MBoom", "MNever", "MNote", "MNoMethod", "MNoGroup", "MBadPayload", "MUnenc", "MEncPanic", "MEchoLater", "MUnencLater"}
 
 func rt(ty int64, m any) hx.T { return hx.C("RT", ty, m) }
 
@@ -65,6 +65,15 @@ func fixedCases(tier string) [][]hx.T {
 	// connection (front-local, then forwarded); every request still gets exactly one response
 	out = append(out, []hx.T{hx.C("OConnect", 1, false, 1), hx.C("HBurst", 1, 1000, 1000, 4000, 11000, 1500),
 		hx.C("OReq", 1, 5, rt(2, "MEcho"), 1), hx.C("OReq", 1, 6, rt(0, "MFail"), 2)})
+	// the protocol state machine while requests are outstanding: a second Handshake packet, a
+	// time-out / relayed reply / asynchronous completion produced before the ack, data packets in
+	// the handshake state (ignored by the server), heartbeats anywhere
+	out = append(out, []hx.T{hx.C("OConnect", 1, false, 1), hx.C("OReq", 1, 5, rt(2, "MNever"), 1), hx.C("OHandshake", 1), hx.C("OAdvance"),
+		hx.C("OReq", 1, 6, rt(0, "MEcho"), 2), hx.C("ONotify", 1, rt(2, "MEcho"), 3), hx.C("OAck", 1), hx.C("OReq", 1, 7, rt(0, "MEcho"), 4)})
+	out = append(out, []hx.T{hx.C("OConnect", 1, false, 1), hx.C("OConnect", 2, false, 2), hx.C("OHeartbeat", 1), hx.C("OReq", 1, 5, rt(2, "MEchoLater"), 1),
+		hx.C("OReq", 1, 6, rt(0, "MEchoLater"), 2), hx.C("OReq", 1, 7, rt(2, "MEcho"), 3), hx.C("OHandshake", 1), hx.C("OHeartbeat", 1),
+		hx.C("OReq", 2, 5, rt(2, "MNever"), 4), hx.C("OHandshake", 2), hx.C("OAck", 1), hx.C("OReq", 1, 8, rt(2, "MUnencLater"), 5), hx.C("OAdvance"),
+		hx.C("OClose", 2), hx.C("OHandshake", 1), hx.C("OReq", 1, 9, rt(0, "MEcho"), 6)})
 	// largest id
 	out = append(out, []hx.T{hx.C("OConnect", 1, false, 1), hx.C("OReq", 1, int64(4294967295), rt(2, "MEcho"), 1), hx.C("OReq", 1, int64(4294967295), rt(0, "MFail"), 2)})
 	if tier == "thorough" {
@@ -219,9 +228,25 @@ func gen(cfg *hx.Config, i int) ([]hx.T, []string) {
 				ops = append(ops, hx.C("OReq", c, mid(), rt(ty, hx.C("MSetKey", k)), tag))
 			}
 			tag++
-		case p < 93:
+		case p < 91:
 			tags["advance"] = true
 			ops = append(ops, hx.C("OAdvance"))
+		case p < 93:
+			// the protocol state machine: re-handshake (often right after a forwarded request), ack, heartbeat
+			switch r.Intn(4) {
+			case 0:
+				tags["rehandshake"] = true
+				if r.Intn(2) == 0 {
+					ops = append(ops, hx.C("OReq", c, mid(), rt(2, hx.Pick(r, []string{"MEcho", "MNever", "MEchoLater", "MFail"})), tag))
+					tag++
+				}
+				ops = append(ops, hx.C("OHandshake", c))
+			case 1, 2:
+				tags["ack"] = true
+				ops = append(ops, hx.C("OAck", c))
+			default:
+				ops = append(ops, hx.C("OHeartbeat", c))
+			}
 		case p < 97:
 			tags["close"] = true
 			if connected[c] && !closedTok[c] {
